@@ -358,6 +358,9 @@ restart:
       if (extension) {
         // signal which item we are deleting
         bucket.state.store(locked_state.set_delete_marker(i + 1), std::memory_order_relaxed);
+        // a reader that sees the key moved into this slot must also see the delete marker
+        // (39) - this release-fence synchronizes-with the acquire-fences (40)
+        XENIUM_THREAD_FENCE(std::memory_order_release);
 
         auto k = extension->key.load(std::memory_order_relaxed);
         auto v = extension->value.load(std::memory_order_relaxed);
@@ -383,6 +386,9 @@ restart:
         if (i != item_count - 1) {
           // signal which item we are deleting
           bucket.state.store(locked_state.set_delete_marker(i + 1), std::memory_order_relaxed);
+          // a reader that sees the key moved into this slot must also see the delete marker
+          // (39) - this release-fence synchronizes-with the acquire-fences (40)
+          XENIUM_THREAD_FENCE(std::memory_order_release);
 
           auto k = bucket.key[item_count - 1].load(std::memory_order_relaxed);
           auto v = bucket.value[item_count - 1].load(std::memory_order_relaxed);
@@ -454,6 +460,9 @@ void vyukov_hash_map<Key, Value, Policies...>::erase(iterator& pos) {
     auto locked_state = pos.current_bucket_state.locked();
     auto marked_state = locked_state.set_delete_marker(pos.index + 1);
     pos.current_bucket->state.store(marked_state, std::memory_order_relaxed);
+    // a reader that sees the key moved into this slot must also see the delete marker
+    // (39) - this release-fence synchronizes-with the acquire-fences (40)
+    XENIUM_THREAD_FENCE(std::memory_order_release);
     assert(pos.current_bucket->state.load().is_locked());
 
     auto k = extension->key.load(std::memory_order_relaxed);
@@ -486,6 +495,9 @@ void vyukov_hash_map<Key, Value, Policies...>::erase(iterator& pos) {
       auto locked_state = pos.current_bucket_state.locked();
       auto marked_state = locked_state.set_delete_marker(pos.index + 1);
       pos.current_bucket->state.store(marked_state, std::memory_order_relaxed);
+      // a reader that sees the key moved into this slot must also see the delete marker
+      // (39) - this release-fence synchronizes-with the acquire-fences (40)
+      XENIUM_THREAD_FENCE(std::memory_order_release);
       assert(pos.current_bucket->state.load().is_locked());
 
       auto k = pos.current_bucket->key[max_index].load(std::memory_order_relaxed);
@@ -538,6 +550,8 @@ retry:
       accessor acc = traits::acquire(bucket.value[i], std::memory_order_acquire);
 
       // ensure that we can use the value we just read
+      // (40) - this acquire-fence synchronizes-with the release-fences (39)
+      XENIUM_THREAD_FENCE(std::memory_order_acquire);
       const auto state2 = bucket.state.load(std::memory_order_relaxed);
       if (state.version() != state2.version()) {
         // a deletion has occured in the meantime -> we have to retry
@@ -578,6 +592,8 @@ retry:
       // (26) - this acquire-load synchronizes-with <nothing>
       accessor acc = traits::acquire(extension->value, std::memory_order_acquire);
 
+      // (40) - this acquire-fence synchronizes-with the release-fences (39)
+      XENIUM_THREAD_FENCE(std::memory_order_acquire);
       auto state2 = bucket.state.load(std::memory_order_relaxed);
       if (state.version() != state2.version()) {
         // a deletion has occured in the meantime -> we have to retry
@@ -594,6 +610,8 @@ retry:
 
     // (27) - this acquire-load synchronizes-with the release-store (35)
     extension = extension->next.load(std::memory_order_acquire);
+    // (40) - this acquire-fence synchronizes-with the release-fences (39)
+    XENIUM_THREAD_FENCE(std::memory_order_acquire);
     auto state2 = bucket.state.load(std::memory_order_relaxed);
     if (state.version() != state2.version()) {
       // a deletion has occured in the meantime -> we have to retry
@@ -602,6 +620,8 @@ retry:
     }
   }
 
+  // (40) - this acquire-fence synchronizes-with the release-fences (39)
+  XENIUM_THREAD_FENCE(std::memory_order_acquire);
   auto state2 = bucket.state.load(std::memory_order_relaxed);
   if (state.version() != state2.version()) {
     state = state2;
@@ -814,6 +834,11 @@ auto vyukov_hash_map<Key, Value, Policies...>::lock_bucket(hash_t hash, guarded_
 
     // (34) - this acquire-CAS synchronizes-with the release-store (3, 5, 11, 13, 14, 36, 38)
     if (bucket.state.compare_exchange_strong(st, st.locked(), std::memory_order_acquire, std::memory_order_relaxed)) {
+      // The key/value cells are written with relaxed stores while we hold the lock. A concurrent try_get_value
+      // that sees one of these values must also see every change of the bucket state that preceded it,
+      // otherwise it could combine a new key with the old value of that cell and still pass its version check.
+      // (39) - this release-fence synchronizes-with the acquire-fences (40)
+      XENIUM_THREAD_FENCE(std::memory_order_release);
       state = st;
       return bucket;
     }
